@@ -241,6 +241,7 @@ type param struct {
 	spec   bool // receiver of the specialisation struct (h *Permutation)
 	jag    bool // fft mode: [][]Element, a read-only table of rows of fixed lengths (passed by value)
 	isChan bool // fft mode: chan struct{}, statically nil (no goroutine is ever started on a translated path)
+	isOpts bool // fft mode (slpffttop.go): `opts ...Option`, a translation-time record (coset, nbTasks = 1)
 }
 
 type fn struct {
@@ -297,6 +298,7 @@ type pkgCtx struct {
 	extraQual  map[*ast.File]string // import name of cfg.extraDir
 	relOf      map[*ast.File]string // path relative to cfg.dir
 	iconsts    map[string]int64     // integer constants of the package (extended mode)
+	topFrom    int                  // fft mode: p.order[topFrom:] goes to <Pkg>Top.lean (0 = no second file)
 }
 
 type variant struct {
@@ -866,7 +868,7 @@ func (p *pkgCtx) addFunc(f *ast.File, inBase bool, d *ast.FuncDecl) {
 				p.fftParam(f, inBase, fl.Type, &q)
 			}
 		}
-		if t == nil && !isInt && !q.slice && !q.isBool && !q.jag && !q.isChan {
+		if t == nil && !q.isInt && !q.slice && !q.isBool && !q.jag && !q.isChan && !q.isOpts {
 			bad("parameter of unsupported type " + exprStr(fl.Type))
 		}
 		for _, nm := range fl.Names {
@@ -2463,6 +2465,12 @@ func (p *pkgCtx) translateSpec(f *fn, pat []int, sp *spec) *variant {
 			x.paramRoot[r] = true
 			switch {
 			case q.spec:
+				if p.cfg.ext == "fft" && sp != nil && sp.top != "" {
+					// the Domain receiver of FFT / FFTInverse: size and precompute flag are fixed by the specialisation
+					s.sbools[q.name+".withPrecompute"] = sp.pre
+					s.sints[q.name+".Cardinality"] = sp.card
+				}
+			case q.isOpts:
 			case q.isBool:
 				s.sbools[q.name] = sp.bools[i]
 			case q.isInt && sp != nil:
@@ -2754,13 +2762,20 @@ func (p *pkgCtx) emit() {
 	for _, c := range p.consts {
 		b.WriteString(c + "\n")
 	}
-	for _, v := range p.order {
+	main := p.order
+	if p.topFrom > 0 {
+		main = p.order[:p.topFrom]
+	}
+	for _, v := range main {
 		fmt.Fprintf(&b, "def %s %s%s : %s :=\n", v.name, v.instBinders(), v.binders(p), v.resultType())
 		writeCode(&b, v.body, "  ")
 		b.WriteString("\n")
 	}
 	fmt.Fprintf(&b, "end %s\n", p.cfg.ns())
 	writeFile(p.cfg.sub()+"/"+modName(p.cfg.name)+".lean", b.String())
+	if p.topFrom > 0 {
+		p.emitTop(p.order[p.topFrom:])
+	}
 }
 
 // alias + frame theorems (C19 material); proved by the tactics of Proofs/AliasTac.lean
